@@ -5,6 +5,7 @@
 //@ defs: -DXV_CTL_TRACK=$TRACK
 //@ enforce: process_get_all_attr
 //@ replace: add_attr
+//@ timeout: 1200
 //@ props: C14
 //@ expect: postcondition>=4 canary=3
 #include "_unit.h"
